@@ -12,7 +12,10 @@ from ..core.resolve import (resolve_callee, process_target, ext_name,
 DRAIN_FUNCS = ('utils.multiprocessing_utils:winnow_process_list',
                'utils.multiprocessing_utils:winnow_process_dict')
 
-BROAD = ('Exception', 'BaseException')
+# (an interrupt or an exit request that a worker turns into a normal
+# return is a failure reported as success as well)
+BROAD = ('Exception', 'BaseException', 'KeyboardInterrupt', 'SystemExit',
+         'GeneratorExit')
 
 
 class SpawnSite(object):
